@@ -19,6 +19,7 @@ package client
 
 import (
 	"context"
+	"crypto/sha256"
 	"encoding/base64"
 	"fmt"
 	"net/http"
@@ -27,6 +28,7 @@ import (
 	ct "github.com/google/certificate-transparency-go"
 	"github.com/google/certificate-transparency-go/jsonclient"
 	"github.com/google/certificate-transparency-go/tls"
+	"github.com/google/certificate-transparency-go/x509"
 )
 
 // LogClient represents a client for a given CT Log instance
@@ -94,8 +96,33 @@ func (c *LogClient) addChainWithRetry(ctx context.Context, ctype ct.LogEntryType
 		}
 	}
 
+	if len(resp.ID) != 0 && len(resp.ID) != sha256.Size {
+		return nil, RspError{
+			Err:        fmt.Errorf("id is invalid length, expected %d got %d", sha256.Size, len(resp.ID)),
+			StatusCode: httpRsp.StatusCode,
+			Body:       body,
+		}
+	}
 	var logID ct.LogID
 	copy(logID.KeyID[:], resp.ID)
+	if c.Verifier != nil {
+		// The log ID is not covered by the SCT signature: it has to name the key this client verifies with.
+		keyDER, err := x509.MarshalPKIXPublicKey(c.Verifier.PubKey)
+		if err != nil {
+			return nil, RspError{Err: fmt.Errorf("failed to marshal log public key: %v", err), StatusCode: httpRsp.StatusCode, Body: body}
+		}
+		keyID := sha256.Sum256(keyDER)
+		if len(resp.ID) == 0 {
+			// No id in the response: the signature check below ties the SCT to the configured key.
+			logID.KeyID = keyID
+		} else if logID.KeyID != keyID {
+			return nil, RspError{
+				Err:        fmt.Errorf("SCT log ID %x does not match the hash %x of the log's public key", logID.KeyID, keyID),
+				StatusCode: httpRsp.StatusCode,
+				Body:       body,
+			}
+		}
+	}
 	sct := &ct.SignedCertificateTimestamp{
 		SCTVersion: resp.SCTVersion,
 		LogID:      logID,
